@@ -50,7 +50,7 @@ Proof.
     destruct (Qden (Qred a)); exists x; eexists; (split; [reflexivity|exact D]).
 Qed.
 
-Lemma digit_not_sign x : is_digit x = true -> is_blank x = false /\ x <> "+"%char /\ x <> "-"%char.
+Lemma digit_not_sign x : is_digit x = true -> is_blank x = false /\ x <> "+"%char /\ x <> "-"%char /\ is_space x = false.
 Proof. all_ascii x; vm_compute; intros H; try discriminate H; repeat split; discriminate. Qed.
 
 Section Expr.
@@ -200,14 +200,14 @@ Section Expr.
   (* the first byte of numtext a ++ " " ++ name is no blank, "+" or "-" when a >= 0 *)
   Lemma bare_head a nm c' : 0 <= a -> Qeq_bool a M = false -> name_ok nm ->
     exists b x t, all_blank b /\ s2l " " ++ numtext a ++ " "%char :: nm ++ c' = b ++ x :: t /\
-                  is_blank x = false /\ x <> "+"%char /\ x <> "-"%char.
+                  is_blank x = false /\ x <> "+"%char /\ x <> "-"%char /\ is_space x = false.
   Proof.
     intros A NM NO. unfold numtext. destruct (Qeq_bool a 1).
     - destruct nm as [|x r]; [destruct NO|]. destruct NO as [H _].
-      destruct (name_start_facts x H) as (_ & NB & _ & _ & _ & N1 & N2 & _).
+      destruct (name_start_facts x H) as (_ & NB & NSP & _ & _ & N1 & N2 & _).
       exists [" "%char; " "%char], x, (r ++ c'). repeat split; auto.
     - rewrite (print_val_nonneg a A NM). destruct (print_num_nonneg_head a A) as (x & t & EP & D).
-      destruct (digit_not_sign x D) as (NB & N1 & N2).
+      destruct (digit_not_sign x D) as (NB & N1 & N2 & NSP).
       exists [" "%char], x, (t ++ " "%char :: nm ++ c'). rewrite EP. repeat split; auto.
   Qed.
 
@@ -270,7 +270,7 @@ Section Expr.
     - assert (NN : ~ c < 0) by (apply Qltb_false in NEG; lra).
       destruct f.
       + (* bare: " " |c| name *)
-        destruct (bare_head (absq c) nm (cutline cu') A CO NO) as (b & x & t & AB & EB & NB & N1 & N2).
+        destruct (bare_head (absq c) nm (cutline cu') A CO NO) as (b & x & t & AB & EB & NB & N1 & N2 & _).
         assert (E : cur st = b ++ x :: t) by (rewrite CU; exact EB).
         assert (C0 : cur st = [" "%char] ++ numtext (absq c) ++ " "%char :: nm ++ cutline cu') by exact CU.
         destruct (read_tail_term k st rw false (absq c) nm _ _ C0 eq_refl CO A NO ST) as (st3 & C3 & R3 & E3 & RT).
@@ -334,6 +334,41 @@ Section Expr.
         destruct m; [apply read_expr_sbeq|apply read_expr_sbeq|apply read_tail_sbeq]; exact S12.
   Qed.
   End Read.
+
+  (* terms only: what the tail lemmas need *)
+  Fixpoint items_wf (its : list item) : Prop :=
+    match its with
+    | [] => True
+    | ITerm _ c nm :: r => coef_ok c /\ name_ok nm /\ items_wf r
+    | _ :: r => items_wf r
+    end.
+  Lemma items_ok_wf its : forall m, items_ok m its -> items_wf its.
+  Proof.
+    induction its as [|[f c nm| |n] r IH]; intros m OK; cbn [items_ok items_wf] in *; [exact I| | |].
+    - destruct OK as (_ & CO & NO & OK). eauto.
+    - destruct OK as (_ & OK). eauto.
+    - eauto.
+  Qed.
+
+  Lemma term_text_no_colon c f nm : coef_ok c -> name_ok nm -> existsb (Ascii.eqb ":") (term_text M c f nm) = false.
+  Proof.
+    intros CO NO. unfold term_text. rewrite coef_text_eq, !existsb_app. cbn [existsb].
+    rewrite (name_no_colon nm NO). unfold numtext.
+    replace (existsb (Ascii.eqb ":") (if Qeq_bool (absq c) 1 then [] else print_val M (absq c))) with false.
+    - destruct (Qltb c 0); [reflexivity|destruct f; reflexivity].
+    - destruct (Qeq_bool (absq c) 1); [reflexivity|]. rewrite (print_val_nonneg _ (absq_nonneg c) CO).
+      symmetry. apply numchars_no_colon, print_num_numchar.
+  Qed.
+
+  Lemma rem_no_colon tc tl its : items_wf its -> existsb (Ascii.eqb ":") (cutline tc) = false ->
+    existsb (Ascii.eqb ":") (cutline (fst (rem tc tl its))) = false.
+  Proof.
+    intros WF TC. induction its as [|[f c nm| |n] r IH]; cbn [rem items_wf] in *; [exact TC| | |].
+    - destruct WF as (CO & NO & WF). specialize (IH WF). destruct (rem tc tl r) as [cu re]. cbn [fst] in *.
+      rewrite (cutline_app _ _ (term_text_clean c f nm CO NO)), existsb_app, (term_text_no_colon c f nm CO NO), IH. reflexivity.
+    - specialize (IH WF). destruct (rem tc tl r) as [cu re]. cbn [fst] in *. exact IH.
+    - destruct (rem tc tl r) as [cu re]. reflexivity.
+  Qed.
 
   (* ---- the theorem of this layer -------------------------------------------------------------------------- *)
   (* [its] any well-formed item list with at least one term, written after [hdr] (whose text has been consumed:
